@@ -76,6 +76,17 @@ Proof.
   eapply IH; [|exact Hr]. rewrite (rem_step i E) in Hf. lia.
 Qed.
 
+(* ---- the result does not depend on the fuel once there is enough of it ---- *)
+Lemma retry_loop_mono : forall f i s s' fin, retry_loop f i s = (s', fin) -> fin <> RFuelOut ->
+  forall g, (f <= g)%nat -> retry_loop g i s = (s', fin).
+Proof.
+  induction f as [|f IH]; intros i s s' fin Hr Hn g Hg.
+  - cbn in Hr. injection Hr as <- <-. congruence.
+  - destruct g as [|g]; [lia|]. rewrite retry_loop_eq in *.
+    destruct (i <=? maxr); [|exact Hr]. destruct (ws (r_waits s)); [|exact Hr]. cbv zeta in *.
+    destruct (snd (attempt _)); try exact Hr. apply (IH _ _ _ _ Hr Hn). lia.
+Qed.
+
 (* ---- attempt count ---- *)
 Lemma loop_count_exact : forall f i s s' fin p,
   (rem i < f)%nat -> retry_loop f i s = (s', fin) ->
@@ -208,6 +219,21 @@ Proof.
   destruct (retry_loop _ _ _) as [s' fin] eqn:E. cbn [snd]. exact (loop_final _ _ _ _ _ fuel_enough E).
 Qed.
 
+Lemma ewr_fuel_eq : forall fuel t0,
+  snd (execute_with_retries_fuel outs durs ws maxr ri fuel t0) <> RFuelOut ->
+  execute_with_retries_fuel outs durs ws maxr ri fuel t0 = execute_with_retries outs durs ws maxr ri t0.
+Proof.
+  intros fuel t0. rewrite ewr_eq. unfold execute_with_retries_fuel, on_panic, retry_recover_deferred_first,
+    retry_first_attempt_returns_on_success, retry_loop_init.
+  destruct (Retry.attempt outs durs _) as [s1 o]. cbn [fst snd]. destruct o; try reflexivity.
+  destruct (retry_loop fuel 1 s1) as [s' fin] eqn:E. cbn [snd]. intros Hn.
+  destruct (Nat.le_gt_cases fuel (retry_fuel maxr)) as [Hle|Hgt].
+  - symmetry. exact (retry_loop_mono _ _ _ _ _ E Hn _ Hle).
+  - destruct (retry_loop (retry_fuel maxr) 1 s1) as [s2 fin2] eqn:E2.
+    destruct (loop_final _ _ _ _ _ fuel_enough E2) as [Hf _].
+    rewrite (retry_loop_mono _ _ _ _ _ E2 Hf fuel ltac:(lia)) in E. symmetry. exact E.
+Qed.
+
 Lemma attempt_count : forall t0,
   (forall k, outs k <> APanic) -> (forall k, exists lag, ws k = WTimer lag) ->
   attempts (execute_with_retries outs durs ws maxr ri t0) = (1 + lead_fails outs O (budget maxr))%nat.
@@ -332,6 +358,25 @@ Qed.
 (* examples *)
 Definition script (l : list outc) (k : nat) : outc := nth k l AFail.
 Definition all_timer (k : nat) : wsel := WTimer 0.
+
+(* MaxRetries at the ends of Go's int: "retry until it succeeds" and the most negative value *)
+Definition max_int : Z := 9223372036854775807.
+Definition min_int : Z := -9223372036854775808.
+Lemma attempt_count_int_extremes : forall durs ri t0,
+  attempts (execute_with_retries (script [AFail; AFail; AOk]) durs all_timer max_int ri t0) = 3%nat /\
+  attempts (execute_with_retries (script [AFail; AFail; AOk]) durs all_timer (max_int - 1) ri t0) = 3%nat /\
+  attempts (execute_with_retries (script [AFail; AFail; AOk]) durs all_timer min_int ri t0) = 1%nat.
+Proof.
+  intros durs ri t0.
+  assert (Hnp : forall k, script [AFail; AFail; AOk] k <> APanic).
+  { intros k. do 4 (destruct k as [|k]; [cbn; discriminate|]). unfold script. cbn. destruct k; discriminate. }
+  assert (Hnt : forall k, exists lag, all_timer k = WTimer lag) by (intros k; exists 0; reflexivity).
+  assert (Hf : forall j, (j < 2)%nat -> script [AFail; AFail; AOk] j = AFail).
+  { intros j Hj. destruct j as [|[|j]]; [reflexivity|reflexivity|lia]. }
+  assert (G : forall m, Z.of_nat (attempts (execute_with_retries (script [AFail; AFail; AOk]) durs all_timer m ri t0)) = 1 + Z.min (Z.max 0 m) 2).
+  { intros m. exact (attempt_count_formula _ durs all_timer m ri t0 2%nat Hnp Hnt Hf eq_refl). }
+  repeat split; apply Nat2Z.inj; rewrite G; unfold max_int, min_int; lia.
+Qed.
 Definition cancel_at (n : nat) (k : nat) : wsel := if Nat.eqb k n then WDone 3 else WTimer 1.
 
 Example ex_retry_three_fails_then_ok :
